@@ -120,7 +120,7 @@ def rdsLoop (owner : Name) (rdtype rdclass ttl : Nat) (origin : Option Name) :
 /-- `RRset.to_wire(file, compress, origin)` = `Rdataset.to_wire(name, …, override_rdclass=deleting)`;
 returns the buffer, the table and the number of records written. -/
 def rrsetToWire (out : Bytes) (t : CTable) (origin : Option Name) (r : RRset) : Except RErr (Bytes × CTable × Nat) :=
-  let rdclass := match r.deleting with | some d => d | none => r.rdclass
+  let rdclass := r.wireClass
   if r.rdatas.length = 0 then
     match toWireC out t r.name origin with
     | .error e => .error (nameErr e)
